@@ -24,6 +24,31 @@ PROPS = {
         level_text="Lean 4 theorems over the heap model of vec_znx: value, frame and bounds for all sizes (incl. 0), strides, dimensions and contents; model tied to /repo by bit-exact whole-arena differential runs (canary padding, all size orderings, both module types and dispatch masks)",
         design_ref="DESIGN.md §5 C08",
     ),
+    "C12": dict(
+        title="Shared modules and precomputed tables are safe for concurrent use",
+        module="SpqProofs.Properties.C12",
+        gen=["globals", "caches"],
+        variants={"plain": None, "tsan": None},
+        streams=dict(quick=[("mt_module", "plain"), ("mt_module", "tsan"), ("ca_prog", "plain")],
+                     thorough=[("mt_module", "plain"), ("mt_module", "tsan"), ("ca_prog", "plain")]),
+        proved="(1) read-only threads: for every interleaving the shared memory is unchanged and every thread observes what it observes solo; (2) Gen obligation re-decided by the kernel on every run: the call-graph closure (indirect calls over-approximated) of every exported const MODULE*/const *_PRECOMP* entry point references no shared mutable global; (3) warm-up: a *_simple call after a completed call with the same key performs no write to its cache",
+        not_proved="real weak-memory interleavings, compiler reordering and the first-use race of the *_simple functions are runtime behaviour: exhibited by the ThreadSanitizer stream (16 threads, fresh and warmed-up), not by a theorem; extraction of the call graph / global references from the object files is trusted",
+        level_text="Lean 4 theorem over sequentially consistent interleavings + kernel-decided obligation on the call graph and global-reference sets extracted from the freshly built objects; TSan and per-thread-vs-solo bitwise streams tie it to the real code (partial: runtime memory model not modelled)",
+        design_ref="DESIGN.md §5 C12",
+        technique="Lean 4 proof (interleaving induction) + kernel-decided reachability over extracted call graph; TSan correspondence",
+    ),
+    "C15": dict(
+        title="Results depend only on arguments: no hidden state, history or alignment",
+        module="SpqProofs.Properties.C15",
+        gen=["globals", "caches"],
+        streams=dict(quick=[("ca_prog", "plain"), ("ca_irrelevant", "plain"), ("vz_box", "plain")],
+                     thorough=[("ca_prog", "plain"), ("ca_irrelevant", "plain"), ("vz_box", "plain"), ("vz_norm", "plain")]),
+        proved="history independence of every function with function-local static state (structure extracted from the C source each run): after any call sequence the table in use was built with the call's own values of every table-relevant constructor argument; Gen obligations: every constructor argument is in the cache key, every function referencing mutable static storage is a modelled cache; purity of the limb-vector operations (outputs depend on source cells only)",
+        not_proved="which constructor arguments are table-irrelevant is declared by hand (4 entries) and validated by byte-comparing tables (stream ca_irrelevant); buffer alignment independence is checked by the streams only (all loads are unaligned loads)",
+        level_text="Lean 4 invariant proof over the cache state machine whose per-function structure is re-extracted from the C source on every run, plus kernel-decided obligations; rebuild events and outputs compared with the real code over random call programs",
+        design_ref="DESIGN.md §5 C15",
+        technique="Lean 4 proof (state-machine invariant) over a model regenerated from source + correspondence",
+    ),
     "C13": dict(
         title="Supported in-place calls give the same result as out-of-place calls",
         module="SpqProofs.Properties.C13",
